@@ -5,6 +5,7 @@ package transport
 import (
 	"crypto/rand"
 	"sync"
+	"sync/atomic"
 )
 
 // This file exists only under the "verif" build tag. It exposes read-only views
@@ -91,3 +92,12 @@ func verifOverrideCerts(c *Client, leaf, intermediate []byte) ([]byte, []byte) {
 	}
 	return leaf, intermediate
 }
+
+var verifSkew atomic.Int64
+
+// VerifSetClientClockSkew makes hidden-mode requests written by clients of this
+// process carry a timestamp that is off by the given number of seconds (a client
+// whose clock runs ahead or behind).
+func VerifSetClientClockSkew(seconds int64) { verifSkew.Store(seconds) }
+
+func verifClientClockSkew() int64 { return verifSkew.Load() }
